@@ -45,22 +45,42 @@
                            This is the half used by the end-to-end composition `C01_composition`
                            (which applies only clause 1 of `ObsSame`).
     C02_sem_forward_link   the same for `p'` produced by the checker, in the shape of the C01 link.
+    C02_sem_frag_of_finished   ALL FOUR CLAUSES of `C02_ObsSame` for the programs of the fragment and the
+                           arguments on which the Fun machine FINISHES (a result or an arithmetic fault
+                           at some fuel) — no further hypothesis.
+    C02_sem_frag_of_safe   ALL FOUR CLAUSES for the programs of the fragment and the arguments on which
+                           the Fun machine never gets stuck for a reason other than an arithmetic fault
+                           (`C02_FunSafe`; i.e. additionally to the previous theorem: a Fun run that goes
+                           on forever is matched by a Core run that goes on forever with the same trace).
+                           Backward half by: in every chunk of the simulation the Core machine advances
+                           or the Fun machine arrives at a smaller term (Scc/Fun2Core/SemBack.lean),
+                           determinism of the Core machine, monotonicity of its output.
+    C02_funSafe_of_finished    a finishing Fun run is `C02_FunSafe`.
+    C02_sem_frag_modulo_safety  `C02_funSafe_statement` → `C02_ObsSame` for all checked programs of the
+                           fragment (arguments as many as `main` has parameters).
     C02_sem_statement_as_given_false   ¬ C02_sem_statement_as_given (witness: a tail call of `main`,
                            `def main(n){ if n == 0 {0} else {main(n - 1)} }` on the argument 1).
   NOT PROVED (precise obstacles)
+    * `C02_funSafe_statement` (def): checked programs with a valid `main` never get stuck in the Fun
+      machine for a reason other than an arithmetic fault (type safety of the CEK machine w.r.t. the
+      checker; a statement about `checkProgram` and `Fun.step` only).  It is the ONLY thing missing for
+      the backward half on the fragment: with it `C02_sem_frag_of_safe` gives `C02_ObsSame` for every
+      checked program of the fragment.  Without it the backward half is false (for an ill-typed state
+      the Core machine evaluates the second operand of `if` before it notices that the first is not an
+      integer, so it can finish where the Fun machine is stuck).
     * codata beyond the restriction above: destructor calls on a call / destructor chain
       (`mk(n).apply(4)`, `s.tail.tail.head`), definitions / destructors / `if` / `case` that RETURN
       codata.  There the Core machine evaluates the arguments of the destructor BEFORE the scrutinee
       is run (and suspends `μ`s as thunks when a continuation is shared); relating this to the Fun
-      machine needs that pure argument terms cannot get stuck, i.e. (kind-level) type safety of the
-      Fun machine, which is not available.  (On the repository's corpus: 106 of the 121 sequenced
-      programs with a valid `main` are in `fragOk`; 14 of the other 15 are of this kind, 1 calls
-      `main`.)
-    * the BACKWARD half (clauses 2 and 4: a finished Core run is matched by a Fun run): follows from the
-      forward simulation and determinism ONLY IF the Fun machine never gets stuck for a reason other
-      than an arithmetic fault on checked programs (type safety of the CEK machine w.r.t. the checker,
-      not proved anywhere); for ill-typed states it is false (the Core machine evaluates the second
-      operand of `if` before it notices that the first is not an integer).
+      machine needs that pure argument terms cannot get stuck, i.e. again (kind-level) type safety of
+      the Fun machine.  (On the repository's corpus: 106 of the 121 sequenced programs with a valid
+      `main` are in `fragOk`; 14 of the other 15 are of this kind, 1 calls `main`.)
+      A possible extension WITHOUT type safety (not done): index the continuation relation by the
+      kind (codata / not) of the expected value, add the frame `dtorScrut` ~ destructor value, and
+      require decidably that (a) the arguments of a destructor call with a non-value scrutinee are
+      variables / literals / `new` / constructors of such, (b) every destructor name has the same
+      return kind in all instances, (c) labels and covariable parameters have non-codata types;
+      a survey of this predicate accepts 113 of the 121 programs.
     * hypotheses of `fragOk` that the checker guarantees but that are assumed here as decidable
       checks: pairwise distinct parameter / clause binder names, closedness of definition bodies,
       pairwise distinct definition names; and on the OUTPUT `coreClosed q` (every translated
@@ -190,6 +210,115 @@ theorem C02_sem_forward_link (p : Fun.Program) (p' : Fun.CheckedProgram) (q2 : C
     (hfin : C02_ObsFinished (ofFun (Fun.run p' args n)).res) :
     ∃ m, ofCore (Core.run q2 args m) = ofFun (Fun.run p' args n) :=
   (C02_sem_forward_frag p' q2 hf hc hq args).1 n hfin
+
+/-- the Fun run never gets stuck for a reason other than an arithmetic fault (what type safety of
+the CEK machine w.r.t. the checker would give for checked programs with a valid `main`) -/
+def C02_FunSafe (p' : Fun.CheckedProgram) (args : List Word) : Prop :=
+  ∀ n, (ofFun (Fun.run p' args n)).res = .outOfFuel ∨ C02_ObsFinished (ofFun (Fun.run p' args n)).res
+
+/-- type safety of the CEK machine, as needed by the backward half — NOT PROVED (a statement about
+the checker and the Fun machine only, no compiler stage involved) -/
+def C02_funSafe_statement : Prop :=
+  ∀ (p : Fun.Program) (p' : Fun.CheckedProgram),
+    programNamesOk p = true → checkProgram p = .ok p' → validMain p' = true →
+    ∀ args : List Word, args.length = (p'.defs.find? (·.name == "main")).elim 0 (·.ctx.length) →
+      C02_FunSafe p' args
+
+/-- **C02, semantic part, both halves, fragment, modulo safety of the Fun run**: for every program of
+the fragment `fragOk`, whose translation is `q2` (with every translated definition closed), and all
+arguments on which the Fun machine does not get stuck for a reason other than an arithmetic fault:
+the Fun machine on the program and the Core ς-machine on `q2` have the same observable behaviour
+(all four clauses of `ObsSame`). -/
+theorem C02_sem_frag_of_safe (p' : Fun.CheckedProgram) (q2 : Core.Prog)
+    (hf : Fun2Core.Sem.fragOk p' = true) (hc : Fun2Core.compileProg p' = .ok q2)
+    (hq : Fun2Core.Sem.coreClosed q2 = true) (args : List Word) (hs : C02_FunSafe p' args) :
+    C02_ObsSame (fun n => ofFun (Fun.run p' args n)) (fun n => ofCore (Core.run q2 args n)) := by
+  obtain ⟨f1, f3⟩ := C02_sem_forward_frag p' q2 hf hc hq args
+  have hs' : Fun2Core.Sem.FunSafe p' args := by
+    intro n
+    rcases hs n with h | h
+    · left
+      revert h
+      simp only [ofFun]
+      cases (Fun.run p' args n).res <;> simp
+    · exact .inr (C02_finished_of_obs h)
+  obtain ⟨b2, b4⟩ := Fun2Core.Sem.sem_backward hc (Fun2Core.Sem.progOk_of_fragOk hf) hq args hs'
+  refine ⟨f1, fun m hfin => ?_, f3, fun m => ?_⟩
+  · have hne : (Core.run q2 args m).res ≠ .outOfFuel := by
+      intro e
+      simp only [ofCore, e, C02_ObsFinished] at hfin
+    obtain ⟨n, r, hn, hr⟩ := b2 m hne
+    refine ⟨n, ?_⟩
+    simp only [hn]
+    exact (C02_obs_of_match hr).symm
+  · obtain ⟨n, hn⟩ := b4 m
+    exact ⟨n, hn⟩
+
+theorem C02_runFrom_stable (p : Fun.CheckedProgram) : ∀ (n : Nat) (s : Fun.State)
+    (acc : List (Bool × Word)) (b : Fun.Behaviour),
+    Fun.runFrom p n s acc = b → b.res ≠ .outOfFuel → ∀ k, Fun.runFrom p (n + k) s acc = b
+  | 0, s, acc, b, h, hr, k => by
+    simp only [Fun.runFrom] at h
+    subst h
+    exact absurd rfl hr
+  | n + 1, s, acc, b, h, hr, k => by
+    rw [show n + 1 + k = (n + k) + 1 by omega]
+    simp only [Fun.runFrom] at h ⊢
+    cases hs : Fun.step p s with
+    | next s' o =>
+      rw [hs] at h
+      cases o with
+      | none => exact C02_runFrom_stable p n s' acc b h hr k
+      | some o => exact C02_runFrom_stable p n s' (o :: acc) b h hr k
+    | done v => rw [hs] at h; exact h
+    | stuck w => rw [hs] at h; exact h
+
+theorem C02_funRun_stable (p : Fun.CheckedProgram) (args : List Word) (n k : Nat)
+    (hr : (Fun.run p args n).res ≠ .outOfFuel) : Fun.run p args (n + k) = Fun.run p args n := by
+  unfold Fun.run at hr ⊢
+  cases h : Fun.initState p args with
+  | error w => rfl
+  | ok s =>
+    rw [h] at hr
+    exact C02_runFrom_stable p n s [] _ rfl hr k
+
+/-- a Fun run that finishes (with a result or an arithmetic fault) is safe -/
+theorem C02_funSafe_of_finished (p' : Fun.CheckedProgram) (args : List Word) (n0 : Nat)
+    (h : C02_ObsFinished (ofFun (Fun.run p' args n0)).res) : C02_FunSafe p' args := by
+  intro n
+  by_cases hr : (Fun.run p' args n).res = .outOfFuel
+  · left
+    simp only [ofFun, hr]
+  · right
+    have hr0 : (Fun.run p' args n0).res ≠ .outOfFuel := by
+      intro e
+      simp only [ofFun, e, C02_ObsFinished] at h
+    have h1 := C02_funRun_stable p' args n n0 hr
+    have h2 := C02_funRun_stable p' args n0 n hr0
+    rw [Nat.add_comm] at h2
+    rw [← h1, h2]
+    exact h
+
+/-- **C02, semantic part, fragment, finishing runs**: if the Fun machine finishes on the arguments
+(with a result or an arithmetic fault), the Fun machine on the program and the Core ς-machine on its
+translation have the same observable behaviour (all four clauses of `ObsSame`) -/
+theorem C02_sem_frag_of_finished (p' : Fun.CheckedProgram) (q2 : Core.Prog)
+    (hf : Fun2Core.Sem.fragOk p' = true) (hc : Fun2Core.compileProg p' = .ok q2)
+    (hq : Fun2Core.Sem.coreClosed q2 = true) (args : List Word) (n0 : Nat)
+    (h : C02_ObsFinished (ofFun (Fun.run p' args n0)).res) :
+    C02_ObsSame (fun n => ofFun (Fun.run p' args n)) (fun n => ofCore (Core.run q2 args n)) :=
+  C02_sem_frag_of_safe p' q2 hf hc hq args (C02_funSafe_of_finished p' args n0 h)
+
+/-- the full equivalence on the fragment for checked programs, reduced to the safety of the Fun
+machine on checked programs -/
+theorem C02_sem_frag_modulo_safety (hsafe : C02_funSafe_statement)
+    (p : Fun.Program) (p' : Fun.CheckedProgram) (q2 : Core.Prog)
+    (hn : programNamesOk p = true) (hck : checkProgram p = .ok p') (hvm : validMain p' = true)
+    (hf : Fun2Core.Sem.fragOk p' = true) (hc : Fun2Core.compileProg p' = .ok q2)
+    (hq : Fun2Core.Sem.coreClosed q2 = true) (args : List Word)
+    (hlen : args.length = (p'.defs.find? (·.name == "main")).elim 0 (·.ctx.length)) :
+    C02_ObsSame (fun n => ofFun (Fun.run p' args n)) (fun n => ofCore (Core.run q2 args n)) :=
+  C02_sem_frag_of_safe p' q2 hf hc hq args (hsafe p p' hn hck hvm args hlen)
 
 /-- `fragOk` contains the hypotheses of the full statement that are about the shape of the program -/
 theorem C02_fragOk_sequenced {p' : Fun.CheckedProgram} (h : Fun2Core.Sem.fragOk p' = true) :
@@ -360,6 +489,9 @@ theorem C02_sem_statement_as_given_false : ¬ C02_sem_statement_as_given := by
 
 #print axioms C02_sem_forward_frag
 #print axioms C02_sem_forward_link
+#print axioms C02_sem_frag_of_safe
+#print axioms C02_sem_frag_of_finished
+#print axioms C02_sem_frag_modulo_safety
 #print axioms C02_fragOk_sequenced
 #print axioms C02Sem_example
 #print axioms C02Sem_example2
